@@ -353,9 +353,10 @@ int main(int argc, char **argv)
             for (int mode = 0; mode < 3; mode++) {
                 ex_ctx c; memset(&c, 0, sizeof c); c.op = op; c.mode = mode; c.cfg = cfgs[ci];
                 if (!th) set_vars(&c, mode == 0 ? "BBBB11" : mode == 1 ? "BBBB1B" : "BBBBBB");
-                else set_vars(&c, mode == 0 ? "FFFF11" : mode == 1 ? "FFBB1F" : "FFSSFF");
-                if (th && mode == 2 && ci == 1) set_vars(&c, "BBBBBB");     /* CA cube only under the default chain; boundary alphabet under general-only */
+                else set_vars(&c, mode == 0 ? "FFFF11" : mode == 1 ? "FFBB1F" : "FSSSFF");
+                if (th && ci == 1) set_vars(&c, mode == 0 ? "BBBB11" : mode == 1 ? "BBBB1B" : "BBBBBB");     /* full cubes under the default chain; boundary alphabet under general-only */
                 run_ex(&c, "exact");
+                if (th && mode == 2 && ci == 0) { ex_ctx c4 = c; set_vars(&c4, "FFTTFS"); run_ex(&c4, "exact"); }   /* (sc, sa, mc) full cube */
                 if (mode == 1) {
                     /* full alpha cube (sa, ma, da), colour on the short alphabet; also the a8 presentation of the mask */
                     ex_ctx c2 = c; set_vars(&c2, th ? "BFBF1F" : "TFTF1F"); run_ex(&c2, "exact-alpha-cube");
@@ -419,7 +420,7 @@ int main(int argc, char **argv)
         }
     }
     vf_space_run("format-triples", fmt_total, fmt_case_all, NULL);
-    vf_bounds = th ? "exact: 13 ops x {none: full 2^32 (sc,sa,dc,da); unified: (sc,sa,ma) full 2^24 x (dc,da) in B8^2 + alpha cube; CA: (sc,sa,mc,ma) full 2^32 x (dc,da) in B6^2 [default chain]}; "
+    vf_bounds = th ? "exact: 13 ops x {none: full 2^32 (sc,sa,dc,da); unified: (sc,sa,ma) full 2^24 x (dc,da) in B8^2 + alpha cube; CA: (sc,mc,ma) full 2^24 x (sa,dc,da) in B6^3 and (sc,sa,mc) full 2^24 x (dc,da) in T^2 x ma in B6 [default chain; boundary alphabets under general-only]}; "
                      "tolerance: 40 ops x 3 modes x B8^4..6 + full (sa,da) plane; formats: 53 ops x 17x17 format pairs x 5 mask presentations x per-channel {0,1,mid,max-1,max} (first 4096 strips of 128); cfgs default+general"
                    : "exact: 13 ops x 3 mask modes x B8^4..6 + (sa,ma,da) full 2^24 cube; tolerance: 40 ops x 3 modes x B8^4..5 (CA: B8^4 x B6^2) + full (sa,da) plane x B6^2; "
                      "formats: 11 ops x 17x17 format pairs (masked: a third) x per-channel 5-value alphabets (first 256 strips of 128); cfgs default+general";
